@@ -496,6 +496,8 @@ func c03Gates(c *Ctx) {
 			}
 			if s.Callee.Name() == "NewStateHistory" || s.Callee.Name() == "NewHistory" {
 				ctor = s
+			} else if ctor == nil && pkgRelOf(s.Callee) == "blockchain/statebackend" && (findSite(s.Callee, "NewStateHistory") != nil || findSite(s.Callee, "NewHistory") != nil) {
+				ctor = s // the reader is built by a helper of the same package: the gate must dominate the helper call
 			}
 		}
 		construct := be + ".StateAtBlockNumber"
@@ -509,6 +511,82 @@ func c03Gates(c *Ctx) {
 		}
 		okg := dominatesInstr(gate.Instr, ctor.Instr) && hasFact(factStrings(factsAt(ctor.Instr)), "!(", "Retained", "!= nil")
 		c.check(okg, "gates", construct, p.Pos(ctor.Pos()), "retention gate dominates the history reader and its error is returned", "the history reader is built on a path where the retention check's error was not tested")
+	}
+	// block-scoped views are history readers on every success path (never the live head state)
+	var viewOrigin func(v ssa.Value, depth int) (bool, string)
+	viewOrigin = func(v ssa.Value, depth int) (bool, string) {
+		if depth > 6 {
+			return false, "too deep"
+		}
+		switch x := v.(type) {
+		case *ssa.MakeInterface:
+			return viewOrigin(x.X, depth+1)
+		case *ssa.ChangeInterface:
+			return viewOrigin(x.X, depth+1)
+		case *ssa.Extract:
+			return viewOrigin(x.Tuple, depth+1)
+		case *ssa.Alloc:
+			if st := singleStore(x); st != nil {
+				return viewOrigin(st.Val, depth+1)
+			}
+			if st := onlyStore(x); st != nil {
+				return viewOrigin(st.Val, depth+1)
+			}
+			return false, "local with several stores"
+		case *ssa.Phi:
+			for _, e := range x.Edges {
+				if ok, why := viewOrigin(e, depth+1); !ok {
+					return false, why
+				}
+			}
+			return true, ""
+		case *ssa.Call:
+			cal := x.Call.StaticCallee()
+			if cal == nil {
+				return false, "dynamic call"
+			}
+			if cal.Name() == "NewStateHistory" || cal.Name() == "NewHistory" {
+				return true, ""
+			}
+			if pkgRelOf(cal) == "blockchain/statebackend" && len(cal.Blocks) > 0 {
+				for _, ret := range returnsOf(cal) {
+					if len(ret.Results) < 1 || (len(ret.Results) > 1 && !isNilConst(ret.Results[len(ret.Results)-1])) {
+						continue
+					}
+					if ok, why := viewOrigin(ret.Results[0], depth+1); !ok {
+						return false, "via " + cal.Name() + ": " + why
+					}
+				}
+				return true, ""
+			}
+			return false, "built by " + qname(cal)
+		}
+		return false, "built from " + shortTerm(v)
+	}
+	for _, be := range []string{"stateBackend", "deprecatedStateBackend"} {
+		for _, m := range []string{"StateAtBlockNumber", "StateAtBlockHash"} {
+			f := p.Func("blockchain/statebackend", be, m)
+			if f == nil {
+				c.und("gates", be+"."+m+" view", "", "anchor not found")
+				continue
+			}
+			bad := ""
+			k := 0
+			for _, ret := range returnsOf(f) {
+				if len(ret.Results) < 3 || !isNilConst(ret.Results[2]) {
+					continue
+				}
+				k++
+				if ok, why := viewOrigin(ret.Results[0], 0); !ok {
+					// the empty state before genesis (zero parent hash) is not block-scoped
+					if z, _ := everyDisjunctHas(p.mustHoldAt(ret.Ret), []string{"blockHash.IsZero()"}); z && len(p.mustHoldAt(ret.Ret)) > 0 {
+						continue
+					}
+					bad = why
+				}
+			}
+			c.check(bad == "" && k > 0, "gates", be+"."+m+" returns a history view", p.Pos(fnPos(f)), "every success path returns a reader built by NewStateHistory/NewHistory for the requested block", "a block-scoped state view is not a history reader ("+bad+"): it reads the live head state, so it follows the head after the next store/revert and reports never-deployed contracts as zero values")
+		}
 	}
 	// stateHistory accessors consult the deployment height
 	type acc struct {
